@@ -553,4 +553,33 @@ def coerceArgumentValues (reg : Reg) (fuel : Nat) (vars : List (String × PV)) (
         | some pv => .ok ((d.pyName, pv) :: r)
         | none => .ok r
 
+/-! ### the validator's condition on variable usages (validation/rules: VariablesInAllowedPosition, Schema.is_subtype) -/
+
+/-- `Schema.is_subtype(type_, super_type)` on input types (no abstract types among them) -/
+def isSubtype : Ty → Ty → Bool
+  | .named a, b => b == .named a                                            -- `type_ == super_type`, else nothing applies
+  | .list a, b =>
+    b == .list a ||
+      match b with
+      | .list b' => isSubtype a b'                                          -- both ListType: compare the item types
+      | _ => false                                                          -- `isinstance(type_, ListType): return False`
+  | .nonNull a, b =>
+    b == .nonNull a ||
+      match b with
+      | .nonNull b' => isSubtype a b'                                       -- both NonNullType
+      | _ => isSubtype a b                                                  -- `isinstance(type_, NonNullType)`: strip it
+
+/-- `var_default is not None and type(var_default) != NullValue` -/
+def VarDef.hasNonNullDefault (d : VarDef) : Bool :=
+  match d.default with
+  | some .null => false
+  | some _ => true
+  | none => false
+
+/-- the test of `VariablesInAllowedPositionChecker.leave_document` for one usage (`true` = no error is reported) -/
+def allowedUsage (varTy : Ty) (varDefaultNonNull : Bool) (locTy : Ty) (locHasDefault : Bool) : Bool :=
+  if locTy.isNonNull && !varTy.isNonNull then
+    (varDefaultNonNull || locHasDefault) && isSubtype varTy (stripNN locTy)
+  else isSubtype varTy locTy
+
 end PyGql.Coerce
